@@ -631,6 +631,22 @@ Theorem c12_source_instr_counters : forall (pc : pconfig) (ms : list task), sym_
 Proof. exact src_pm_counters_quiescent. Qed.
 Print Assumptions c12_source_instr_counters.
 
+(* progress measure at instruction granularity ([imu] = an upper bound on the instruction steps still needed: per
+   lookup not begun 17 / 18 / 10 + the supplier's suspensions): no step increases it, a step of a task waiting for a
+   held lock leaves the shared state alone, every other step of an unfinished task lowers it — and by
+   c12_source_instr_no_deadlock such a task exists while anything is unfinished: no stuck state, no livelock *)
+From RM Require Import C12.ProgMeasure.
+Theorem c12_source_instr_progress : forall (pc : pconfig) (ms : list task) (t : task),
+  imu (cfg pc) (length (ptasks pc)) (pmstep src_program (cfg pc) t (pmrun src_program pc ms))
+    <= imu (cfg pc) (length (ptasks pc)) (pmrun src_program pc ms) /\
+  (blocked (pmrun src_program pc ms) t = true ->
+     psh (pmstep src_program (cfg pc) t (pmrun src_program pc ms)) = psh (pmrun src_program pc ms)) /\
+  (blocked (pmrun src_program pc ms) t = false -> ptask_done (pmrun src_program pc ms) t = false ->
+     imu (cfg pc) (length (ptasks pc)) (pmstep src_program (cfg pc) t (pmrun src_program pc ms))
+       < imu (cfg pc) (length (ptasks pc)) (pmrun src_program pc ms)).
+Proof. exact src_pm_progress. Qed.
+Print Assumptions c12_source_instr_progress.
+
 Example c12_nonvacuous_instr :
   let s1 := pmrun src_program two_fill [0; 0; 0; 0; 0; 1; 1] in
   req (psh s1) = 1 /\ calls (psh s1) = [] /\ lock (psh s1) 0 = Some 0 /\ waiting (snd (ppcs s1 1)) = true /\
